@@ -142,7 +142,31 @@ ADDED = {
  "C18": " Session.tla: several statements / commands in one process (CREATE TABLE at run time, \\d, exit): TLC checks HistoryFree (a statement's output is a function of the statement, the tables defined so far and the input) and every session of up to 2 (thorough 3) lines is replayed on the real binary. Round 3: a joined file of 120 lines with three keys interleaved irregularly (partners must come in joined-file order whatever index the loader builds) and, in fresh processes, tables whose names differ only in letter case queried under a third spelling.",
  "C19": " Round 3: Trace_Sigint.tla validates runs of the real process interrupted by a real SIGINT (main.rs ctrl-c handler): rows are a prefix, lines processed = rows printed, an interrupted aggregate shows the table of exactly the lines consumed, status 0 and no error.",
 }
+# rounds 4 to 6 of seeded changes (DESIGN.md section 6.1 / 12)
+ADDED2 = {
+ "C01": " Rounds 4-6: array / TIMESTAMP columns over split fields listed out of order, Unicode whitespace in TRIM, tables mixing JSON and regex columns with NOT NULL in every position.",
+ "C02": " Rounds 4-6: two TEXT columns whose paths meet on one JSON string, top-level arrays / scalars / leading blanks, NOT NULL before, at and after the first JSON column.",
+ "C03": " Rounds 4-6: statements written with the fewest parentheses (PrecMenu), NOT over IN / IS / comparisons, CASE with a failing condition, REAL against REAL incl. -0.0 (also through IN) in the random expression traces.",
+ "C04": " Rounds 4-6: unary / cast wrappers, HAVING that combines selected and unselected aggregates, the same aggregate twice in HAVING, PERCENTILE with three-decimal and eighth fractions over 3 and 25-40 values, a REAL column.",
+ "C05": " Rounds 4-6: joined paths that are missing / lack the ON column / are a directory (also with LIMIT 0 and empty input), a DEFAULT on the joined side of an OUTER JOIN, 120 joined lines with interleaved keys, LIMIT over join fan-out.",
+ "C06": " Rounds 4-6: NOT NULL next to DEFAULT on noise lines, the admission rule per (definition, line) over tables mixing JSON and regex columns (Extract.tla), follow mode over inputs with noise lines incl. aggregates with LIMIT (Engine.tla models the follow-mode row count as built).",
+ "C07": " Rounds 4-6: DISTINCT aggregates under LIMIT on four-line inputs; follow mode: a statement whose LIMIT is complete returns without going back to the file; aggregates with LIMIT in follow mode.",
+ "C08": " Rounds 4-6: DISTINCT aggregates over joins with duplicate joined lines, DISTINCT over a subset of the group keys and over groups keyed by expressions that are not shown.",
+ "C09": " Rounds 4-6: month words with multi-byte characters, letters whose case forms have another length, joined paths that cannot be read, the command-line driver on unreadable inputs.",
+ "C10": " Rounds 4-6: an interrupt while the reader waits (Follow.tla Interrupt / halted).",
+ "C11": " Rounds 4-6: aggregates over a join whose WHERE looks at the joined side, fed line by line; PERCENTILE over equal-but-distinguishable values on 40-60 lines; every follow replay starts with a non-UTF-8 noise line and polls the end of file twice; a byte order mark on the first line of a file (batch and follow read the same line).",
+ "C12": " Rounds 4-6: lossy_lines over short reads and one interrupted read at every position (four buffer capacities), a file whose metadata reports size 0, Reader.tla over every byte sequence (characters cut off by a line / file end, lone continuation bytes), follow mode of the real binary.",
+ "C13": " Rounds 4-6: four operator nodes (thorough), statements evaluated by value (regrouping after parsing), tokens separated by line breaks (each token at column 0), blanks before line breaks, tabs / CRLF.",
+ "C14": " Rounds 4-6: tuples nested in first position, wide whitespace before the error, array type names in rare letters, invalid patterns no column refers to, errors next to long words of 2- / 3- / 4-byte characters at every alignment.",
+ "C15": " Rounds 4-6: COUNT(DISTINCT) over 18 distinct values, aggregates over TIMESTAMP / INTERVAL / REAL under permutation, a synthetic corpus of 64-bit extremes.",
+ "C16": " Rounds 4-6: a text literal on either side of a TIMESTAMP under every operator, whole-row comparison (DISTINCT / GROUP BY over three- and four-column tuples with exchanged values), join lookup across INT / REAL keys.",
+ "C17": " Rounds 4-6: control characters, JSON-looking TEXT, rare letters, astral and combining characters.",
+ "C19": " Rounds 4-6: a SIGINT during an aggregate over a join in which every line has 400 partners (rows = 400 x lines processed), an interrupt while the follow reader waits.",
+ "C20": " Rounds 4-6: comments holding backslashes / non-ASCII text, non-ASCII literals followed by further clauses.",
+}
 for _pid, _t in ADDED.items():
+    CLAIMED[_pid]["text"] += _t
+for _pid, _t in ADDED2.items():
     CLAIMED[_pid]["text"] += _t
 
 TITLES = {}
